@@ -320,7 +320,7 @@ esl_ct2wuss(int *ct, int n, char *ss)
 	      // npk ++;  // if you wanted to count PK's, here's where to do it
 	      xpk ++;
 	      /* figure out if we can use this alphabet index, or bump it up if necessary */
-	      while (i < rb[xpk]) { xpk ++; }
+	      while (xpk < 26 && i < rb[xpk]) { xpk ++; }  /* rb[] has 26 entries; xpk == 26 is caught as "not enough letters" below */
 	      
 	      leftbound  = (rightbound < cct[i])? rightbound : cct[j];
 	      rightbound = cct[i];
@@ -499,7 +499,7 @@ esl_ct2simplewuss(int *ct, int n, char *ss)
 	      // npk ++;   // if you want to count PK's, here's where to do it
 	      xpk ++;
 	      /* figure out if we can use this alphabet index, or bump it up if necessary */
-	      while (i < rb[xpk]) { xpk ++; }
+	      while (xpk < 26 && i < rb[xpk]) { xpk ++; }  /* rb[] has 26 entries; xpk == 26 is caught as "not enough letters" below */
 	      
 	      leftbound  = (rightbound < cct[i])? rightbound : cct[j];
 	      rightbound = cct[i];
